@@ -69,8 +69,8 @@ type QueryObs struct {
 	ContractBreak []string `json:"contract_breaches,omitempty"`
 	Upstream      []string `json:"upstream,omitempty"`
 
-	reply    *dns.Msg
-	edeCodes []uint16
+	reply     *dns.Msg
+	edeCodes  []uint16
 	budgetEDE bool
 }
 
@@ -333,6 +333,14 @@ func (s *stackRun) ask(client string, q QuerySpec) *QueryObs {
 			}
 		}
 	}
+	if mode != "off" && obs.budgetEDE && len(obs.Exhausted) == 0 {
+		// the ledger publishes its crossings when its last holder lets go;
+		// give a straggler a moment before concluding there was none
+		for i := 0; i < 400 && len(obs.Exhausted) == 0; i++ {
+			time.Sleep(5 * time.Millisecond)
+			obs.Exhausted = exhaustedDelta(ex0, middleware.VerifC12Exhaustions(mode))
+		}
+	}
 	t2 := t
 	if len(t2.Raws) > 0 && t2.Raws[0] != nil {
 		for _, b := range replycontract.Check("tcp", qraw, t2.Raws[0], replycontract.Options{}) {
@@ -357,13 +365,13 @@ func (s *stackRun) ask(client string, q QuerySpec) *QueryObs {
 // topology is a function of (seed, index); the stack configuration and the
 // observation that was judged are included for the reader.
 type ReplayCase struct {
-	Seed     uint64     `json:"seed"`
-	Index    int        `json:"index"`
-	Topology *TopoSpec  `json:"topology"`
-	Stack    *StackCfg  `json:"stack,omitempty"`
-	Obs      *QueryObs  `json:"observation,omitempty"`
-	Ref      *QueryObs  `json:"reference_observation,omitempty"`
-	Extra    any        `json:"extra,omitempty"`
+	Seed     uint64    `json:"seed"`
+	Index    int       `json:"index"`
+	Topology *TopoSpec `json:"topology"`
+	Stack    *StackCfg `json:"stack,omitempty"`
+	Obs      *QueryObs `json:"observation,omitempty"`
+	Ref      *QueryObs `json:"reference_observation,omitempty"`
+	Extra    any       `json:"extra,omitempty"`
 }
 
 func (s *stackRun) caseFor(obs *QueryObs) ReplayCase {
